@@ -31,20 +31,31 @@ def cfg(init, rots, depth, mode, laws=False):
 
 
 # ---- concrete execution -----------------------------------------------------------------------
-def dims_arg(kind, variant, workdir):
-    """The tomogram-dimension argument in one of the accepted forms."""
+def dims_arg(kind, variant, workdir, cache=None):
+    """The tomogram-dimension argument in one of the accepted forms.  Within one history the caller keeps using the
+    same table object (cache): a call must not change what the table says for the next call."""
     import pandas as pd
     if kind == "none":
         return None
+    if cache is not None and kind == "table" and "df" in cache and variant % 3 != 2:
+        return cache["df"]
+    if cache is not None and kind == "single" and "single_df" in cache and variant % 2 == 1:
+        return cache["single_df"]
     if kind == "single":
         if variant % 2 == 0:
             return [100, 120, DIMZ[1]]
+        if cache is not None:
+            cache["single_df"] = pd.DataFrame([[100.0, 120.0, float(DIMZ[1])]])
+            return cache["single_df"]
         return np.array([100, 120, DIMZ[1]])
     table = np.array([[t, 100, 120 + t, DIMZ[t]] for t in sorted(DIMZ)], dtype=float)
-    if variant % 3 == 0:
+    if variant % 3 == 0 and cache is None:
         return table
-    if variant % 3 == 1:
-        return pd.DataFrame(table, columns=["tomo_id", "x", "y", "z"])
+    if variant % 3 in (0, 1):
+        df = pd.DataFrame(table, columns=["tomo_id", "x", "y", "z"])
+        if cache is not None:
+            cache["df"] = df
+        return df
     path = os.path.join(workdir, "dims_%d.txt" % os.getpid())
     with open(path, "w") as fh:
         for r in table:
@@ -52,7 +63,7 @@ def dims_arg(kind, variant, workdir):
     return path
 
 
-def apply_op(motl, op, variant, workdir):
+def apply_op(motl, op, variant, workdir, cache=None):
     from scipy.spatial.transform import Rotation
     name = op["name"]
     if name == "update":
@@ -69,7 +80,7 @@ def apply_op(motl, op, variant, workdir):
     elif name == "rotate":
         motl.apply_rotation(Rotation.from_matrix(geo.code_to_matrix(op["q"])))
     elif name == "flip":
-        motl.flip_handedness(dims_arg(op["kind"], variant, workdir))
+        motl.flip_handedness(dims_arg(op["kind"], variant, workdir, cache))
     else:
         raise core.MachineryError("unknown op %r" % (op,))
 
@@ -116,10 +127,11 @@ def run_history(ctx, init, steps, variant, kind):
     from cryocat import cryomotl
     case = {"kind": kind, "init": init, "steps": steps, "variant": variant}
     rng = __import__("random").Random(variant)
-    df = motlutil.poses_to_df(init, rng)
+    df = motlutil.vary_index(motlutil.poses_to_df(init, rng), variant)
     motl = cryomotl.Motl(df)
+    cache = {} if len(steps) > 1 else None
     for i, st in enumerate(steps):
-        _, err = core.call_guarded(apply_op, motl, st["op"], variant + i, ctx.workdir)
+        _, err = core.call_guarded(apply_op, motl, st["op"], variant + i, ctx.workdir, cache)
         sig = {"op": st["op"]["name"]}
         if st["op"]["name"] == "flip":
             sig["kind"] = st["op"]["kind"]
@@ -176,6 +188,14 @@ def gen_float_case(rng, idx):
 MZ = np.diag([1.0, 1.0, -1.0])
 
 
+def scaled(v, factor):
+    """Integer-scaled residual, clamped; NaN / inf (a wildly wrong result) become the clamp value and are rejected."""
+    v = float(v) * factor
+    if not math.isfinite(v):
+        return 2000000
+    return int(min(2e6, round(v)))
+
+
 def run_float(ctx, cases):
     """Executes real-valued histories; alpha logs, per step and particle, the integer-scaled residual of the
     clause's identity (positions x1e4 voxel, rotations x1e6 matrix max-norm); PoseTrace.tla decides."""
@@ -193,9 +213,11 @@ def run_float(ctx, cases):
             cols["phi"][k], cols["theta"][k], cols["psi"][k] = p["ang"]
             cols["tomo_id"][k] = p["tomo"]
             cols["subtomo_id"][k] = k + 1
-        motl = cryomotl.Motl(motlutil.df_from_cols(cols))
+        motl = cryomotl.Motl(motlutil.vary_index(motlutil.df_from_cols(cols), case["id"]))
         events = []
         aborted = None
+        dims_table = pd.DataFrame(np.array([[int(t)] + list(d) for t, d in sorted(case["dims"].items())], dtype=float),
+                                  columns=["tomo_id", "x", "y", "z"])      # one object for the whole history
         for si, st in enumerate(case["steps"]):
             pre_c = np.asarray(motl.get_coordinates(), dtype=float).copy()
             pre_a = motl.df[["phi", "theta", "psi"]].to_numpy(dtype=float).copy()
@@ -216,6 +238,8 @@ def run_float(ctx, cases):
                         motl.flip_handedness()
                     elif st["kind"] == "single":
                         motl.flip_handedness(list(case["dims"][1] if 1 in case["dims"] else case["dims"]["1"]))
+                    elif si % 2:
+                        motl.flip_handedness(dims_table)
                     else:
                         motl.flip_handedness(np.array([[int(t)] + list(d) for t, d in sorted(case["dims"].items())], dtype=float))
             _, err = core.call_guarded(do)
@@ -247,13 +271,13 @@ def run_float(ctx, cases):
                             dz = (dd.get(t) or dd.get(str(t)))[2] if st["kind"] == "table" else (dd.get(1) or dd.get("1"))[2]
                             exp_c[2] = dz + 1 - pre_c[k][2]
                     scale = max(1.0, float(np.max(np.abs(exp_c))))
-                    ev["pos"].append(int(min(2e6, round(float(np.max(np.abs(post_c[k] - exp_c))) / scale * 1e7))))
-                    ev["rot"].append(int(min(2e6, round(float(np.max(np.abs(Rn - exp_R))) * 1e7))))
+                    ev["pos"].append(scaled(np.max(np.abs(post_c[k] - exp_c)) / scale, 1e7))
+                    ev["rot"].append(scaled(np.max(np.abs(Rn - exp_R)), 1e7))
                 if st["name"] == "update":
                     xs = motl.df[["x", "y", "z"]].to_numpy(dtype=float)
                     sh = motl.df[["shift_x", "shift_y", "shift_z"]].to_numpy(dtype=float)
                     ev["integral"] = bool(np.max(np.abs(xs - np.rint(xs))) < 1e-9)
-                    ev["maxshift"] = int(round(float(np.max(np.abs(sh))) * 1e6))
+                    ev["maxshift"] = scaled(np.max(np.abs(sh)), 1e6)
             events.append(ev)
         if aborted is not None:
             st = case["steps"][aborted[0]]
